@@ -1357,8 +1357,8 @@ impl Check for C20 {
     }
     fn cases(&self, tier: Tier) -> u64 {
         match tier {
-            Tier::Quick => 1_600,
-            Tier::Thorough => 24_000,
+            Tier::Quick => 8_000,
+            Tier::Thorough => 80_000,
         }
     }
     fn tape_len(&self, _t: Tier) -> usize {
